@@ -25,7 +25,7 @@ package runner
 
 //@ func (*TaskRunner).execute
 //@   requires r != nil && t != nil && (job != nil ==> compiled[job]) && compiledClosed()
-//@   modifies t.Start, t.End, t.ExitCode, t.Errored, t.Error, runN, runJob, runErr, cdom, cval, executor.Job.Dir, executor.DefaultExecutor.*
+//@   modifies t.Start, t.End, t.ExitCode, t.Errored, t.Error, runN, runJob, runErr, bufLen, interp.Runner.Dir, interp.Runner.Env, cdom, cval, executor.Job.Dir, executor.DefaultExecutor.*
 //@   ensures #log-prefix runN >= old(runN) && (forall i int :: i < old(runN) ==> runJob[i] == old(runJob[i]) && runErr[i] == old(runErr[i]))
 //@   ensures #C06.nothing-to-run job == nil ==> runN == old(runN) && result == nil
 //@   ensures #C06.first runN > old(runN) ==> runJob[old(runN)] == job
@@ -37,7 +37,7 @@ package runner
 //@   ensures #C07.exit-code result != nil && exitOK(result) ==> t.ExitCode == exitStatus(result) && t.Errored && t.Error == result
 //@   ensures #C07.success-keeps-flag result == nil ==> t.Errored == old(t.Errored) && t.Error == old(t.Error)
 //@   loop 1 "nextJob != nil"
-//@     invariant #same r == r0 && t == t0 && job == job0 && exec != nil && t != nil && compiledClosed()
+//@     invariant #same r == r0 && t == t0 && job == job0 && exec != nil && exec.interp != nil && t != nil && compiledClosed()
 //@     invariant #in-list nextJob != nil ==> compiled[nextJob]
 //@     invariant #flags t.Errored == old(t.Errored) && t.Error == old(t.Error) && t.AllowFailure == old(t.AllowFailure)
 //@     invariant #log-prefix runN >= old(runN) && (forall i int :: i < old(runN) ==> runJob[i] == old(runJob[i]) && runErr[i] == old(runErr[i]))
@@ -53,28 +53,28 @@ package runner
 
 //@ func (*TaskRunner).contextForTask
 //@   requires runnerOK(r) && t != nil
-//@   modifies runN, runJob, runErr, ExecutionContext.startupError, onceDone
+//@   modifies runN, runJob, runErr, bufLen, interp.Runner.Dir, interp.Runner.Env, ExecutionContext.startupError, onceDone
 //@   ensures #log-prefix runN >= old(runN) && (forall i int :: i < old(runN) ==> runJob[i] == old(runJob[i]) && runErr[i] == old(runErr[i]))
 //@   ensures err == nil ==> ctxOK(c)
 //@   ensures #C14.up-before-anything err == nil ==> onceDone[c.onceUp] && c.startupError == nil
 
 //@ func (*ExecutionContext).After
 //@   requires ctxOK(c)
-//@   modifies runN, runJob, runErr
+//@   modifies runN, runJob, runErr, bufLen, interp.Runner.Dir, interp.Runner.Env
 //@   ensures #log-prefix runN >= old(runN) && (forall i int :: i < old(runN) ==> runJob[i] == old(runJob[i]) && runErr[i] == old(runErr[i]))
 //@   loop 1 "range c.after"
 //@     invariant #same c == c0 && ctxOK(c)
 //@     invariant #log-prefix runN >= old(runN) && (forall i int :: i < old(runN) ==> runJob[i] == old(runJob[i]) && runErr[i] == old(runErr[i]))
 //@ func (*ExecutionContext).Down$1
 //@   requires ctxOK(c)
-//@   modifies runN, runJob, runErr
+//@   modifies runN, runJob, runErr, bufLen, interp.Runner.Dir, interp.Runner.Env
 //@   ensures #log-prefix runN >= old(runN) && (forall i int :: i < old(runN) ==> runJob[i] == old(runJob[i]) && runErr[i] == old(runErr[i]))
 //@   loop 1 "range c.down"
 //@     invariant #same c == c0 && ctxOK(c)
 //@     invariant #log-prefix runN >= old(runN) && (forall i int :: i < old(runN) ==> runJob[i] == old(runJob[i]) && runErr[i] == old(runErr[i]))
 //@ func (*ExecutionContext).Down
 //@   requires ctxOK(c)
-//@   modifies runN, runJob, runErr, onceDone
+//@   modifies runN, runJob, runErr, bufLen, interp.Runner.Dir, interp.Runner.Env, onceDone
 //@   ensures #log-prefix runN >= old(runN) && (forall i int :: i < old(runN) ==> runJob[i] == old(runJob[i]) && runErr[i] == old(runErr[i]))
 //@   ensures #C14.down-fired onceDone[c.onceDown]
 //@   ensures #C14.down-once old(onceDone[c.onceDown]) ==> runN == old(runN)
@@ -146,14 +146,14 @@ package runner
 
 //@ func (*TaskRunner).checkTaskCondition
 //@   requires runnerOK(r) && t != nil && executionContext != nil && compiledClosed()
-//@   modifies runN, runJob, runErr, compiled, cdom, cval, executor.Job.Dir, executor.DefaultExecutor.*
+//@   modifies runN, runJob, runErr, bufLen, interp.Runner.Dir, interp.Runner.Env, compiled, cdom, cval, executor.Job.Dir, executor.DefaultExecutor.*
 //@   ensures #log-prefix runN >= old(runN) && runN <= old(runN) + 1 && (forall i int :: i < old(runN) ==> runJob[i] == old(runJob[i]) && runErr[i] == old(runErr[i]))
 //@   ensures #C06.no-condition t.Condition == "" ==> result && result#1 == nil && runN == old(runN)
 //@   ensures compiledClosed()
 
 //@ func (*TaskRunner).before
 //@   requires runnerOK(r) && t != nil && execContext != nil && vars != nil && env != nil && compiledClosed()
-//@   modifies runN, runJob, runErr, compiled, cdom, cval, executor.Job.Dir, executor.DefaultExecutor.*
+//@   modifies runN, runJob, runErr, bufLen, interp.Runner.Dir, interp.Runner.Env, compiled, cdom, cval, executor.Job.Dir, executor.DefaultExecutor.*
 //@   ensures #log-prefix runN >= old(runN) && (forall i int :: i < old(runN) ==> runJob[i] == old(runJob[i]) && runErr[i] == old(runErr[i]))
 //@   ensures #C06.before-all-ok result == nil ==> runN == old(runN) + len(t.Before) && (forall i int :: old(runN) <= i && i < runN ==> runErr[i] == nil)
 //@   ensures #C06.before-stops-at-first-failure result != nil ==> runN <= old(runN) + len(t.Before) && (forall i int :: old(runN) <= i && i + 1 < runN ==> runErr[i] == nil)
@@ -166,7 +166,7 @@ package runner
 
 //@ func (*TaskRunner).after
 //@   requires runnerOK(r) && t != nil && execContext != nil && vars != nil && env != nil && compiledClosed()
-//@   modifies runN, runJob, runErr, compiled, cdom, cval, executor.Job.Dir, executor.DefaultExecutor.*
+//@   modifies runN, runJob, runErr, bufLen, interp.Runner.Dir, interp.Runner.Env, compiled, cdom, cval, executor.Job.Dir, executor.DefaultExecutor.*
 //@   ensures #log-prefix runN >= old(runN) && runN <= old(runN) + len(t.After) && (forall i int :: i < old(runN) ==> runJob[i] == old(runJob[i]) && runErr[i] == old(runErr[i]))
 //@   ensures compiledClosed()
 //@   loop 1 "range t.After"
@@ -237,7 +237,7 @@ package runner
 //@ pred ctxOK(c *ExecutionContext) := c != nil && c.Env != nil && c.Variables != nil
 //@ func (*ExecutionContext).runServiceCommand
 //@   requires ctxOK(c)
-//@   modifies runN, runJob, runErr
+//@   modifies runN, runJob, runErr, bufLen, interp.Runner.Dir, interp.Runner.Env
 //@   ensures #log-prefix runN >= old(runN) && runN <= old(runN) + 1 && (forall i int :: i < old(runN) ==> runJob[i] == old(runJob[i]) && runErr[i] == old(runErr[i]))
 //@   ensures #C14.service-result runN == old(runN) + 1 ==> runErr[old(runN)] == err
 
@@ -245,7 +245,7 @@ package runner
 //@ func (*ExecutionContext).Up$1
 //@   ghostlocal anyFailed bool
 //@   requires ctxOK(c)
-//@   modifies runN, runJob, runErr, c.startupError
+//@   modifies runN, runJob, runErr, bufLen, interp.Runner.Dir, interp.Runner.Env, c.startupError
 //@   ensures #log-prefix runN >= old(runN) && (forall i int :: i < old(runN) ==> runJob[i] == old(runJob[i]) && runErr[i] == old(runErr[i]))
 //@   ensures #C14.up-failure-remembered anyFailed ==> c.startupError != nil
 //@   ensures #C14.up-success-keeps-nil !anyFailed ==> c.startupError == old(c.startupError)
@@ -259,14 +259,14 @@ package runner
 
 //@ func (*ExecutionContext).Up
 //@   requires ctxOK(c)
-//@   modifies runN, runJob, runErr, c.startupError, onceDone
+//@   modifies runN, runJob, runErr, bufLen, interp.Runner.Dir, interp.Runner.Env, c.startupError, onceDone
 //@   ensures #log-prefix runN >= old(runN) && (forall i int :: i < old(runN) ==> runJob[i] == old(runJob[i]) && runErr[i] == old(runErr[i]))
 //@   ensures #C14.up-fired onceDone[c.onceUp] && (forall o *sync.Once :: old(onceDone[o]) ==> onceDone[o])
 //@   ensures #C14.up-once old(onceDone[c.onceUp]) ==> runN == old(runN) && c.startupError == old(c.startupError)
 //@   ensures #C14.up-error-to-every-caller result == c.startupError
 //@ func (*ExecutionContext).Before
 //@   requires ctxOK(c)
-//@   modifies runN, runJob, runErr
+//@   modifies runN, runJob, runErr, bufLen, interp.Runner.Dir, interp.Runner.Env
 //@   ensures #log-prefix runN >= old(runN) && (forall i int :: i < old(runN) ==> runJob[i] == old(runJob[i]) && runErr[i] == old(runErr[i]))
 //@   loop 1 "range c.before"
 //@     invariant #same c == c0 && ctxOK(c)
